@@ -10,6 +10,7 @@ import JanetModel.Parse.Roundtrip
 import JanetModel.Parse.ReadAll
 import JanetModel.Parse.Insert
 import JanetModel.Parse.Latch
+import JanetModel.Parse.InsertPure
 
 namespace JanetModel.Props.C11
 open JanetModel.Parse JanetModel.PP JanetModel.Gen.Parse
@@ -557,5 +558,16 @@ theorem finish_drains (scan : List B → Option String) (bs : List B) : (finish 
 example : (eof (fun _ => none) (feed (fun _ => none) Run.init [40, 91]).p).error =
     some "unexpected end of source, [ opened at line 1, column 2" := by decide
 example : (eof (fun _ => some "n") (feed (fun _ => some "n") Run.init [49, 32]).p).error = none := by decide
+
+/-- ★ `status_produce_pure` extended to histories that contain `parser/insert`: for EVERY interleaving of bytes, inserts (any value,
+    anywhere: inside containers, comments, strings, behind a pending token), `parser/produce` calls and pure queries from a fresh parser,
+    the values and errors the client ends up with are those of the same history with the dequeues and queries left out.  Rests on
+    the lock-step lemma `insert_dropQ` (`parser/insert` commutes with removing the oldest queued value; needs the fixed root-frame test) -/
+theorem status_produce_pure_with_insert (scan : List B → Option String) (ops : List OpP) :
+    (ops.foldl (runOpP scan) Run.init).events = ((inputsOf ops).foldl (runOpP scan) Run.init).events :=
+  schedule_pure_insert scan ops Run.init WF_init
+
+example : (([OpP.byte 40, .insert (.kw [97]) [97], .byte 35, .produce, .insert .nil [], .byte 10, .query, .byte 41, .insert (.bool true) [], .produce].foldl
+    (runOpP (fun _ => none)) Run.init).events).length = 2 := by decide
 
 end JanetModel.Props.C11
